@@ -554,6 +554,28 @@ def park_wake(ctx):
             out.append(ok('PARK-wake', key, 'AwokenWhileRunning -> Running (poll again), Running -> %s (park)' % parked, fn=fname))
         else:
             out.append(bad('PARK-wake', key, 'the runner no longer parks on Running / re-polls on AwokenWhileRunning (transitions: %s)' % sorted(tr), fn=fname))
+    # a runner goes to sleep (thread::park) only when the state it last saw says "parked": a second wake-up that arrived meanwhile has
+    # turned Running into AwokenWhileRunning and left no unpark token, so parking on "anything but Running" sleeps for ever
+    nparks = 0
+    for fname, _, snaps in events_of(P, 'park'):
+        nparks += 1
+        key = '%s|parks-only-when-parked' % short(fname)
+        seen = set()
+        unknown = False
+        for (T, Pset) in snaps:
+            if Pset is None:
+                unknown = True
+            else:
+                seen |= set(Pset)
+        odd = sorted(seen - {'WaitingForUnpark'})
+        if odd:
+            out.append(bad('PARK-wake', key, 'the runner can call thread::park() after having seen the queue in %s: a wake-up that already happened is not honoured and no further unpark will come' % ', '.join(odd), fn=fname))
+        elif unknown:
+            out.append(undecided('PARK-wake', key, 'thread::park() is reached on a path where the state last seen by the runner is not known'))
+        else:
+            out.append(ok('PARK-wake', key, 'thread::park() only after the queue was seen in WaitingForUnpark', fn=fname))
+    if nparks < 1:
+        out.append(undecided('PARK-wake', 'floor:park', 'no thread::park() site found in the protocol functions'))
     # reschedule_queue offers a WaitingForPoll queue to the pool, and the pool accepts it
     if any(r == 'TOK-pending' and f.endswith('reschedule_queue') for (r, f, m, l) in P.viol):
         out.append(bad('PARK-wake', 'reschedule_queue|WaitingForPoll', 'a queue parked for a polling task is not put on the schedule when it is woken', fn=RESCHED))
